@@ -478,15 +478,27 @@ func genStructVals(rt *rapid.T, m *model, label string) map[int]gval {
 	return vals
 }
 
-// genKVs draws map entries over the non-key fields. noAutoUpdate: do not name a
-// tracked update-time field (domain: for a hook-running update the statement
-// says both "every given key is written" and "refreshed").
-func genKVs(rt *rapid.T, m *model, noAutoUpdate, noIgnored bool, allowExpr int, min int, label string) []kv {
+// genKVs draws map entries over the non-key fields (autoMode: see the constants below).
+const (
+	autoAny    = iota // any value (paths that do not run hooks, creates)
+	autoNonNil        // hook-running update: a given (non-nil) value is written instead of the refresh; what a nil
+	//                    value means there (given NULL, or "not given" and refreshed) is not documented
+	autoExclude // never named
+)
+
+func nonNilTracked(f field, autoMode int, g gval) gval {
+	if autoMode == autoNonNil && f.Auto == "update" && g.Expr == nil && g.Cell == nil {
+		return litVal(f, 2)
+	}
+	return g
+}
+
+func genKVs(rt *rapid.T, m *model, autoMode int, noIgnored bool, allowExpr int, min int, label string) []kv {
 	var out []kv
 	var elig []int
 	for i := m.NK; i < len(m.Fields); i++ {
 		f := m.Fields[i]
-		if noAutoUpdate && f.Auto == "update" {
+		if autoMode == autoExclude && f.Auto == "update" {
 			continue
 		}
 		if known, _, _ := f.perms(); noIgnored && !known {
@@ -502,7 +514,7 @@ func genKVs(rt *rapid.T, m *model, noAutoUpdate, noIgnored bool, allowExpr int, 
 	}
 	for _, i := range elig {
 		if rapid.IntRange(0, 2).Draw(rt, label+".has") > 0 {
-			out = append(out, kv{Key: spell(rt, m.Fields[i], label+".key"), F: i, V: genVal(rt, m, i, allowExpr, fmt.Sprintf("%s.f%d", label, i))})
+			out = append(out, kv{Key: spell(rt, m.Fields[i], label+".key"), F: i, V: nonNilTracked(m.Fields[i], autoMode, genVal(rt, m, i, allowExpr, fmt.Sprintf("%s.f%d", label, i)))})
 		}
 	}
 	for len(out) < min {
@@ -514,7 +526,7 @@ func genKVs(rt *rapid.T, m *model, noAutoUpdate, noIgnored bool, allowExpr int, 
 		if dup {
 			break
 		}
-		out = append(out, kv{Key: spell(rt, m.Fields[i], label+".key1"), F: i, V: genVal(rt, m, i, allowExpr, label+".v1")})
+		out = append(out, kv{Key: spell(rt, m.Fields[i], label+".key1"), F: i, V: nonNilTracked(m.Fields[i], autoMode, genVal(rt, m, i, allowExpr, label+".v1"))})
 	}
 	return out
 }
@@ -558,7 +570,7 @@ func genOp(rt *rapid.T, m *model) (*op, string) {
 			o.Cond = &cond{Form: "ids", IDs: []int64{m.Rows[rapid.IntRange(0, len(m.Rows)-1).Draw(rt, "foundrow")].ID, 40}}
 		}
 		if o.Kind == "firstorcreate-map" {
-			o.Map = genKVs(rt, m, true, false, exprNone, 1, "a")
+			o.Map = genKVs(rt, m, autoExclude, false, exprNone, 1, "a")
 		} else {
 			o.Struct = genStructVals(rt, m, "a")
 			for i, f := range m.Fields {
@@ -596,18 +608,26 @@ func genOp(rt *rapid.T, m *model) (*op, string) {
 	case "updates-map", "updatecolumns-map":
 		genTarget(rt, m, o, true)
 		selForm = genSelect(rt, m, o, false)
-		o.Map = genKVs(rt, m, o.hooks(), false, exprUpdate, 1, "m")
+		mode := autoAny
+		if o.hooks() {
+			mode = autoNonNil
+		}
+		o.Map = genKVs(rt, m, mode, false, exprUpdate, 1, "m")
 	case "update", "updatecolumn":
 		genTarget(rt, m, o, true)
 		selForm = genSelect(rt, m, o, false)
 		var elig []int
 		for i := m.NK; i < len(m.Fields); i++ {
-			if !(o.hooks() && m.Fields[i].Auto == "update") && !m.Fields[i].serialized() {
+			if !m.Fields[i].serialized() {
 				elig = append(elig, i)
 			}
 		}
 		i := rapid.SampledFrom(elig).Draw(rt, "col")
-		o.Map = []kv{{Key: spell(rt, m.Fields[i], "col"), F: i, V: genVal(rt, m, i, exprUpdate, "colv")}}
+		mode := autoAny
+		if o.hooks() {
+			mode = autoNonNil // Update("UpdatedAt", t): the given time is written
+		}
+		o.Map = []kv{{Key: spell(rt, m.Fields[i], "col"), F: i, V: nonNilTracked(m.Fields[i], mode, genVal(rt, m, i, exprUpdate, "colv"))}}
 	case "save":
 		switch k := rapid.IntRange(0, 9).Draw(rt, "savekey"); {
 		case k <= 1:
@@ -758,7 +778,7 @@ func genCreate(rt *rapid.T, m *model, o *op) string {
 	var keys []kv // key set shared by the rows of a map create
 	if isMap {
 		// domain: a map key naming an ignored field is not generated on create paths (see report)
-		keys = genKVs(rt, m, false, true, exprNone, 1, "m")
+		keys = genKVs(rt, m, autoAny, true, exprNone, 1, "m")
 		if len(keys) == 0 { // every field is ignored: nothing a map could name
 			isMap = false
 			o.Kind = map[string]string{"create-map": "create", "create-maps": "create-slice"}[o.Kind]
@@ -1311,7 +1331,7 @@ const ruleText = "C10: a model type built with reflect.StructOf (integer key + 3
 	"clause.Returning, Statement.SetColumn from a registered callback, Session{SkipHooks}, conditions through Scopes, WithContext, a Session parent on which other chains were finished first, " +
 	"Transaction / Begin-Commit, Config SkipDefaultTransaction / PrepareStmt / CreateBatchSize, batches up to 25 rows (thorough). " +
 	"distinct = model + row keys + operation. Not generated (documentation silent): FirstOrCreate on composite keys, with Select/Omit, or with no matching row (C16), Select('*') with a slice model, updates with neither key nor condition (C09), key collisions without an OnConflict clause (C05), " +
-	"Select('*') with a separate value whose key is zero, a hook-running map update that names a tracked update-time field, a create-from-map key that names an ignored field, " +
+	"Select('*') with a separate value whose key is zero, a hook-running map update that gives a tracked update-time field a nil value, a create-from-map key that names an ignored field, " +
 	"rows that propose no column, DoUpdates naming a denied column; batches mixing zero and non-zero values of a default:(expr) column (SQLite has no DEFAULT keyword in VALUES); accepted either way: rows matching only the non-zero member of a partly zero composite key (update paths), the row matching a partly zero composite key exactly under Save (updated, or rejected by the insert path), tracked time cells of created rows that a Select list / a map does not name, and the creation time under UpdateAll"
 
 type caseInfo struct {
@@ -1356,6 +1376,9 @@ func analyse(m *model, o *op, selForm string) caseInfo {
 	}
 	for _, e := range o.Map {
 		note(e.F, e.V)
+		if m.Fields[e.F].Auto == "update" && o.hooks() && !strings.HasPrefix(o.Kind, "firstorcreate") {
+			ci.classes["map-gives-tracked-update-time"] = true
+		}
 	}
 	for _, r := range o.Rows {
 		if r.Keys != nil {
